@@ -151,6 +151,17 @@ class Tr:
             v = s.value
             if isinstance(v, ast.Constant) and isinstance(v.value, str):
                 return ".skip"                                        # docstring
+            if isinstance(v, ast.Call) and isinstance(v.func, ast.Attribute) and ast.unparse(v.func.value) == "self.sock":
+                import socket
+                if v.func.attr == "shutdown" and len(v.args) == 1 and self.resolve(v.args[0]) == socket.SHUT_RDWR:
+                    return ".sockShutdown"
+                if v.func.attr == "close" and not v.args:
+                    return ".sockClose"
+            if isinstance(v, ast.Call) and isinstance(v.func, ast.Attribute) and v.func.attr == "close" and not v.args \
+                    and isinstance(v.func.value, ast.Name) and v.func.value.id in self.locals:
+                return "(.closeRes %s)" % self.expr(v.func.value)
+            if isinstance(v, ast.Call) and isinstance(v.func, ast.Attribute) and v.func.attr == "clear" and not v.args:
+                return "(.clearColl %s)" % q(self.target(v.func.value))
             if isinstance(v, ast.Call) and isinstance(v.func, ast.Attribute):
                 if v.func.attr == "extend" and isinstance(v.func.value, ast.Name) and len(v.args) == 1:
                     return "(.extend %s %s)" % (q(self.nm(v.func.value.id)), self.expr(v.args[0]))
@@ -212,6 +223,15 @@ class Tr:
                 bind = "(some %s)" % q(self.nm(hd.name)) if hd.name else "none"
                 h = "(.excMatch %s %s %s %s)" % (self.cls(hd.type), bind, self.block(hd.body), h)
             return "(.try_ %s %s)" % (self.block(s.body), h)
+        if isinstance(s, ast.With) and len(s.items) == 1 and s.items[0].optional_vars is None:
+            ce = s.items[0].context_expr
+            import contextlib
+            if isinstance(ce, ast.Call) and self.resolve(ce.func) is contextlib.suppress and len(ce.args) == 1 \
+                    and self.resolve(ce.args[0]) is Exception:
+                return "(.suppress %s)" % self.block(s.body)
+            raise Untranslatable("with %s" % ast.unparse(ce))
+        if isinstance(s, ast.For) and not s.orelse and isinstance(s.target, ast.Name):
+            return "(.forEach %s %s %s)" % (q(self.nm(s.target.id)), self.expr(s.iter), self.block(s.body))
         if isinstance(s, ast.Return):
             return "(.ret %s)" % (self.expr(s.value) if s.value is not None else "(.lit .none)")
         if isinstance(s, ast.Raise) and s.exc is not None and s.cause is None:
